@@ -379,3 +379,31 @@ def proof_stage(v, prop_id, targets, extra_allowed=(), closed_obligations=0):
         'print_assumptions': {k: (a or 'Closed under the global context') for k, a in pr['assumptions'].items()},
     })
     return ok, info
+
+
+# ----------------------------------------------------------------------------- model evaluation inside coqc
+def run_model_coqc(prop_id, header, terms, ints_per_case, shard_size=400, timeout=900):
+    """Evaluate closed Coq terms (each of type list Z with exactly ints_per_case entries) with vm_compute
+    inside coqc; used where the model is not extracted (primitive floats).  Returns list of int tuples."""
+    work = os.path.join(BUILD, 'coqcases', prop_id)
+    os.makedirs(work, exist_ok=True)
+    chunks = [terms[i:i + shard_size] for i in range(0, len(terms), shard_size)]
+
+    def one(args):
+        idx, chunk = args
+        path = os.path.join(work, 'cases_%d.v' % idx)
+        with open(path, 'w') as f:
+            f.write(header + '\n')
+            f.write('Eval vm_compute in (List.concat [\n  ' + ';\n  '.join(chunk) + '\n]).\n')
+        rc, out = sh('timeout %d coqc -q -noglob -Q %s/theories A2L %s' % (timeout, COQ, path), cwd=work, timeout=timeout + 30)
+        if rc != 0:
+            raise CheckFailure('coqc evaluation of model cases failed:\n' + out[-2000:])
+        body = out.split('=', 1)[1].rsplit(':', 1)[0]
+        nums = [int(x) for x in re.findall(r'-?\d+', body)]
+        if len(nums) != ints_per_case * len(chunk):
+            raise CheckFailure('unexpected coqc output size %d for %d cases' % (len(nums), len(chunk)))
+        return [tuple(nums[i * ints_per_case:(i + 1) * ints_per_case]) for i in range(len(chunk))]
+
+    with ThreadPoolExecutor(max_workers=NPROC) as ex:
+        parts = list(ex.map(one, list(enumerate(chunks))))
+    return [x for p in parts for x in p]
